@@ -369,6 +369,15 @@ impl<'tcx> Cx<'tcx> {
             let root = tcx.typeck_root_def_id(did);
             o.push(("root", s(self.path(root))));
         }
+        {
+            // generic parameter names in GenericArgs order (parent generics first), aligned with `args` of fn refs
+            let generics = tcx.generics_of(did);
+            let mut names = Vec::new();
+            for i in 0..generics.count() {
+                names.push(s(generics.param_at(i, tcx).name.as_str()));
+            }
+            o.push(("generics", J::A(names)));
+        }
         if matches!(kind, DefKind::Fn | DefKind::AssocFn) {
             o.push(("vis", s(format!("{:?}", tcx.visibility(did)))));
             o.push(("reachable", J::B(tcx.effective_visibilities(()).is_reachable(ldid))));
